@@ -146,6 +146,11 @@ func main() {
 		os.Exit(2)
 	}
 	scratch = os.Args[1]
+	// safety net for the machine running the checks: a runaway allocation ends
+	// this worker with "fatal error: out of memory" (observed as a crash) instead
+	// of exhausting the host
+	lim := syscall.Rlimit{Cur: 12 << 30, Max: 12 << 30}
+	syscall.Setrlimit(syscall.RLIMIT_AS, &lim)
 	resp := os.Stdout
 	var err error
 	capture, err = os.OpenFile(filepath.Join(scratch, "stdout.capture"), os.O_RDWR|os.O_CREATE|os.O_TRUNC, 0o644)
